@@ -371,6 +371,32 @@ pub proof fn lemma_mod_sign(g: int, q: int)
 
 
 /// the value of the top part grows by one digit: dle(s[j..]) == s[j] + 10 * dle(s[j+1..])
+/// little-endian digit strings of equal length denote the same number only if they are the same string
+pub proof fn lemma_dle_inj(a: Seq<u8>, b: Seq<u8>)
+    requires valid_digits(a), valid_digits(b), a.len() == b.len()
+    ensures (dle(a) == dle(b)) <==> (a =~= b)
+    decreases a.len()
+{
+    if a.len() == 0 { } else {
+        let ta = a.drop_first(); let tb = b.drop_first();
+        assert forall|i: int| 0 <= i < ta.len() implies ta[i] <= 9 by { assert(ta[i] == a[i + 1]); }
+        assert forall|i: int| 0 <= i < tb.len() implies tb[i] <= 9 by { assert(tb[i] == b[i + 1]); }
+        lemma_dle_inj(ta, tb);
+        if dle(a) == dle(b) {
+            // a0 + 10*x == b0 + 10*y with digits a0, b0
+            assert(a[0] == b[0] && dle(ta) == dle(tb));
+            assert forall|i: int| 0 <= i < a.len() implies a[i] == b[i] by { if i > 0 { assert(a[i] == ta[i - 1]); assert(b[i] == tb[i - 1]); } }
+        }
+        if a =~= b { assert(ta =~= tb); }
+    }
+}
+pub proof fn lemma_valid_digits_suffix(s: Seq<u8>, j: int)
+    requires 0 <= j <= s.len(), valid_digits(s)
+    ensures valid_digits(s.subrange(j, s.len() as int))
+{
+    let t = s.subrange(j, s.len() as int);
+    assert forall|i: int| 0 <= i < t.len() implies t[i] <= 9 by { assert(t[i] == s[i + j]); }
+}
 pub proof fn lemma_dle_top_step(s: Seq<u8>, j: int)
     requires 0 <= j < s.len()
     ensures dle(s.subrange(j, s.len() as int)) == s[j] as int + 10 * dle(s.subrange(j + 1, s.len() as int))
